@@ -292,6 +292,34 @@ def check_C03(chk):
                 e = (own[n][1], own[n][3], own[n][2])
                 if got.get(n) != e:
                     chk.violation(sigp + "xml-status", "%s testcase %s shows (failures, errors, skipped) %s but %s happened" % (rep, n, got.get(n), e), rp())
+    # a run in the runner's own process followed by a forked run with the same reporter object (run_single_test
+    # then run_test_suite in one program; two libraries on one cgreen-runner command line): the second run's
+    # credits and subtotals are what its tests produced
+    kinds2 = [("pass", 3), ("fail", 3), ("skiptest", 1), ("xensure", 1), ("mixed", 3)]
+    for k in range(3 if chk.tier == "quick" else 25):
+        root = gen_c.gen_tree(chk.rng, max_depth=chk.rng.choice([0, 1, 2]), max_tests=5, kinds=kinds2)
+        for rep in (["text", "cute"] if k == 0 else [chk.rng.choice(["text", "cute", "xml"])]):
+            run = L.run_impl(drv, root, rep, "inproc-forked")
+            mr = L.ModelResult(vlib.run_model("runner", [L.model_case(root, rep, "forked")])[0])
+            chk.case(("inproc-forked", L.node_sexp(root), rep))
+            chk.count("mode:inproc-then-forked")
+            rp2 = replay_of(root, rep, "forked", {"scenario": L.scn_text(root, rep, "inproc-forked", "events.log"), "stdout": run.stdout[-2000:]})
+            td = L.log_tdone(run)
+            second = td[len(td) // 2:]
+            for name, delta in second:
+                if delta != mr.own[name]:
+                    chk.violation("credit-second-run", "second (forked) run after an in-process run: test %s credited %s but its own results are %s" % (name, delta, mr.own[name]), rp2)
+            sd = L.log_sdone(run)
+            sd2 = sd[len(sd) // 2:]
+            exp = tuple(sum(mr.own[n][i] for n in executed_tests(root, "forked")) for i in range(4))
+            sub = tuple(sum(c[i] for n, c, d, t in sd2) for i in range(4))
+            if sd2 and sub != exp:
+                chk.violation("subtotals-second-run", "second (forked) run after an in-process run: per-suite subtotals add up to %s but %s happened" % (sub, exp), rp2)
+            if rep == "text" and run.stdout.count("Running ") >= 2:
+                t2 = L.parse_text(run.stdout[run.stdout.rfind("Running "):])
+                psub = tuple(sum(c[i] for n, c in t2["suites"]) for i in range(4))
+                if psub != exp:
+                    chk.violation("text-subtotals-second-run", "second (forked) run after an in-process run: printed per-suite lines add up to %s but %s happened" % (psub, exp), rp2)
     return chk.finish()
 
 
@@ -515,6 +543,15 @@ def check_C04(chk):
         for _ in range(2 if chk.tier == "quick" else 8):        # subsets
             k = chk.rng.randrange(1, n + 1)
             variants.append(chk.rng.sample(range(n), k))
+        if g < 2:
+            # tests that end in different abnormal ways next to each other: what is reported for one (its counts and
+            # the message about its end) may not depend on how an earlier one ended
+            ways = [[("c", 1), ("die", "sig", 15)], [("c", 1), ("die", "exit", 3)], [("die", "sig", 11)], [("c", 0), ("die", "_exit", 0)], [("c", 1)]]
+            if g == 1:
+                ways = [[("die", "sig", 9)], [("die", "exit", 0)], [("c", 1), ("c", 0)], [("die", "sig", 6)], [("die", "exit", 1)]]
+            n = len(ways)
+            tests = [L.Test(i, body=list(w)) for i, w in enumerate(ways)]
+            variants = [list(range(n)), list(reversed(range(n))), [1, 0, 3, 2, 4], [3, 1, 4, 0, 2]] + [[i] for i in range(n)]
         for order in variants:
             root = L.Suite(0)
             sub = None
@@ -543,6 +580,12 @@ def check_C04(chk):
                 chk.violation(sig0 or "order-dependent", "test %s credited %s in order %s but %s in order %s" % (
                     name, delta, order, seen[key][0], seen[key][1]), replay_of(root, rep, mode, {"stdout": run.stdout[-2000:]}))
             seen.setdefault(key, (delta, order))
+        for name, msg in L.log_tmsg(run):
+            key = (g, name, "msg")
+            if key in seen and seen[key][0] != msg:
+                chk.violation(sig0 or "end-message-order-dependent", "test %s: the runner reports its end as %r in registration order %s but as %r in order %s" % (
+                    name, msg, order, seen[key][0], seen[key][1]), replay_of(root, rep, mode, {"stdout": run.stdout[-2000:]}))
+            seen.setdefault(key, (msg, order))
     # one fork() of the run fails: whatever the runner does then (it aborts the run), no test that is
     # still reported may see what another test did to the program's memory
     build = vlib.build_repo("hooks")
@@ -581,10 +624,20 @@ def check_C13(chk):
     nseq = 8 if chk.tier == "quick" else 150
     kinds = [("pass", 3), ("fail", 3), ("skiptest", 1), ("xensure", 1), ("mixed", 4), ("empty", 1)]
     leftovers = [1, 3, 4, 5, 9] if chk.tier == "quick" else [1, 2, 3, 4, 5, 7, 8, 9, 16, 17, 101]
-    for g in range(nseq + len(leftovers)):
+    quiet_modes = [("loose", "learning"), ("learning", "loose")]
+    for g in range(nseq + len(leftovers) + len(quiet_modes)):
         root = gen_c.gen_tree(chk.rng, max_depth=chk.rng.choice([0, 1, 2]), max_tests=6, kinds=kinds, fw_acts=True, poke=False)
         probe = g % 2 == 0
-        if g >= nseq:
+        if g >= nseq + len(leftovers):
+            # a test switches the mock mode and does nothing else with mocks (no expectation, no mocked call): the
+            # next test calls a function nobody expected and must see strict mocks in every mode
+            m1, m2 = quiet_modes[g - nseq - len(leftovers)]
+            root = L.Suite(0, children=[L.Test(0, body=[("c", 1), ("mode", m1)]),
+                                        L.Test(1, body=[("call",), ("c", 1)]),
+                                        L.Suite(1, children=[L.Test(2, body=[("mode", m2)]), L.Test(3, body=[("c", 1), ("calle",)])]),
+                                        L.Test(4, body=[("call",)])])
+            probe = False
+        elif g >= nseq:
             # a test ends with n expectations still pending for a function; the next test calls that
             # function without declaring anything: strict mocks must report it in every mode
             n = leftovers[g - nseq]
